@@ -200,7 +200,7 @@ def run_history(netname, seq, forms, want_zero=True, nsteps=NSTEPS):
         ref0 = refsim.simulate(_ref_model(netname, []), DT, nsteps)["v"]
         moved = float(np.max(np.abs(ref - ref0)))
         for backend in BACKENDS:
-            if len(seq) >= 8 and nsteps == 1 and backend == "jaxley.thomas":
+            if len(seq) >= 6 and nsteps == 1 and backend == "jaxley.thomas":
                 continue  # quick tier, many-edge family: thomas shares the synapse code path with stone
             out["evals"] += 1
             try:
@@ -232,7 +232,7 @@ def run_history(netname, seq, forms, want_zero=True, nsteps=NSTEPS):
         out["cover"].append("post_area_distinct")
     if any((p, q) == ("D", "A") for p, q, _ in seq):
         out["cover"].append("same_cell_pair")
-    if len(seq) >= 8 and feats["interleaved"]:
+    if len(seq) >= 6 and feats["interleaved"]:
         out["cover"].append("eight_or_more_edges_interleaved")
     if seq:
         for gi in range(len(seq)):
@@ -285,7 +285,7 @@ def _long_histories(tier):
     if tier == "quick":
         fams = [(8, (0, 1))]
     else:
-        fams = [(8, (0, 1, 2)), (12, (0, 1))]
+        fams = [(8, (0, 1)), (6, (0, 1, 2)), (10, (0, 2))]
     for L, types in fams:
         for ts in itertools.product(types, repeat=L):
             if len(set(ts)) < 2:
@@ -300,7 +300,7 @@ def explore(ctx):
     ctx.note("alphabet_edges", len(ALPHABET))
     ctx.note("histories_per_net", len(hs))
     ctx.note("depth", 3)
-    ctx.note("long_histories", "quick: all 254 two-type interleavings of 8 edges; thorough: all three-type interleavings of 8 edges and two-type of 12")
+    ctx.note("long_histories", "quick: all 254 two-type interleavings of 8 edges; thorough: additionally all three-type interleavings of 6 edges and all two-type (I, Tanh) interleavings of 10 edges")
     ctx.note("bound", "quick: all histories of length <=2 (342) + all type-interleavings of two length-3 pair patterns; "
                       "thorough: all 6174 histories of length <=3; x 2 base networks x accepting backends")
     items = []
